@@ -173,6 +173,57 @@ def _shape_table():
         top = min(hi, I64_MAX)
         return list(range(top - 5, top + 1))
 
+    # runs touching the limits of a *narrower* type inside a wider repr (for usize/isize: the
+    # 32-bit limits, which is what the macro guesses as their size)
+    def narrow(bits, r):
+        if r in ("usize", "isize"):
+            return 32
+        return {16: 8, 32: 16, 64: 32, 128: 64}.get(bits)
+
+    @shape("narrow_umax_gapless")
+    def _(r, lo, hi, signed, bits):
+        w = narrow(bits, r)
+        if w is None:
+            return None
+        top = min((1 << w) - 1, I64_MAX)
+        return list(range(top - 2, top + 1))
+
+    @shape("narrow_imax_gapless")
+    def _(r, lo, hi, signed, bits):
+        w = narrow(bits, r)
+        if w is None:
+            return None
+        top = (1 << (w - 1)) - 1
+        return list(range(top - 3, top + 1))
+
+    @shape("narrow_imin_gapless")
+    def _(r, lo, hi, signed, bits):
+        w = narrow(bits, r)
+        if w is None or not signed:
+            return None
+        bot = -(1 << (w - 1))
+        return list(range(bot, bot + 3))
+
+    @shape("narrow_limits_holes")
+    def _(r, lo, hi, signed, bits):
+        w = narrow(bits, r)
+        if w is None:
+            return None
+        umax = min((1 << w) - 1, I64_MAX)
+        imax = (1 << (w - 1)) - 1
+        vs = [0, 1, imax - 1, imax] + ([umax - 1, umax] if umax > imax + 1 else [])
+        if signed:
+            vs = [-(1 << (w - 1)), -(1 << (w - 1)) + 1] + vs
+        return sorted(set(vs))
+
+    @shape("across_narrow_umax")
+    def _(r, lo, hi, signed, bits):
+        w = narrow(bits, r)
+        if w is None or (1 << w) + 2 > min(hi, I64_MAX):
+            return None
+        top = (1 << w) - 1
+        return [top - 1, top, top + 1, top + 2, top + 10]
+
     return T
 
 
@@ -333,47 +384,37 @@ def build_decl(r: str, values_in_order, shape: str, spelling: str, renames: str,
 
 def random_values(r: str, rng: random.Random, max_n=24):
     lo, hi = repr_domain(r)
-    nruns = rng.choice([1, 1, 2, 2, 3, 4, 6])
-    total = rng.randint(1, max_n)
-    # anchor
-    span_needed = total + nruns * 3 + 4
-    if hi - lo + 1 <= span_needed * 2:
-        # tiny type (8 bit): draw a random subset
-        k = min(total, hi - lo + 1)
-        start = rng.randint(lo, hi - k + 1) if rng.random() < 0.5 else rng.choice([lo, hi - k + 1])
-        universe = list(range(max(lo, start - 8), min(hi, start + k + 8) + 1))
-        vs = sorted(rng.sample(universe, min(k, len(universe))))
-        return vs
+    size = hi - lo + 1
+    total = rng.randint(1, min(max_n, size))
+    nruns = min(total, rng.choice([1, 1, 2, 2, 3, 4, 6]))
+    cuts = sorted(rng.sample(range(1, total), nruns - 1)) if nruns > 1 else []
+    lens = [b - a for a, b in zip([0] + cuts, cuts + [total])]
+    gaps = [rng.choice([1, 1, 2, 3, 7, 100]) for _ in range(nruns - 1)]
+    while total + sum(gaps) > size and any(g > 1 for g in gaps):
+        gaps[gaps.index(max(gaps))] = 1
+    while total + sum(gaps) > size:
+        # no room for that many holes: merge runs
+        gaps.pop()
+        lens[-2:] = [lens[-2] + lens[-1]]
+    width = total + sum(gaps)
     anchor = rng.random()
     if anchor < 0.25:
         start = lo
     elif anchor < 0.5:
-        start = None  # anchor the end at hi
+        start = hi - width + 1
     elif anchor < 0.75 and lo < 0:
         start = rng.randint(-40, 5)
     else:
-        start = rng.randint(max(lo, -1000), min(hi - span_needed * 4, 1000)) if hi > 5000 else rng.randint(lo, max(lo, hi - span_needed * 2))
-    lens = []
-    left = total
-    for i in range(nruns):
-        l = max(1, left // (nruns - i)) if i == nruns - 1 else rng.randint(1, max(1, left - (nruns - i - 1)))
-        lens.append(l)
-        left -= l
-        if left <= 0:
-            break
-    gaps = [rng.choice([1, 1, 2, 3, 7, 100]) for _ in lens]
-    width = sum(lens) + sum(gaps[1:])
-    if start is None:
-        start = hi - width + 1
+        start = rng.randint(max(lo, -1000), max(max(lo, -1000), min(hi - width + 1, 1000)))
     start = max(lo, min(start, hi - width + 1))
     vs = []
     cur = start
     for i, l in enumerate(lens):
         if i > 0:
-            cur += gaps[i]
+            cur += gaps[i - 1]
         vs.extend(range(cur, cur + l))
         cur += l
-    assert all(lo <= v <= hi for v in vs), (r, vs[:3], vs[-3:])
+    assert all(lo <= v <= hi for v in vs) and len(set(vs)) == len(vs), (r, vs[:3], vs[-3:])
     return vs
 
 
